@@ -146,7 +146,7 @@ func (r *refState) busToClient(s *Sim) {
 		r.mu.Unlock()
 		acked := false
 		for try := 0; try < r.cfg.GwTries && !acked; try++ {
-			r.toClient(s, &knxnet.TunnelReq{Channel: uint8(ch), SeqNumber: uint8(seq), Payload: indMsg(b.Tag)})
+			r.toClient(s, &knxnet.TunnelReq{Channel: uint8(ch), SeqNumber: uint8(seq), Payload: inMsg(b.Tag, s.Plan.Group)})
 			tm := time.NewTimer(us(r.cfg.GwResendUs))
 		wait:
 			for {
